@@ -47,7 +47,7 @@ def same_dict(a, b):
     for k in a:
         x, y = np.asarray(a[k]), np.asarray(b[k])
         if x.dtype.kind in "fc" and y.dtype.kind in "fc":
-            if not world.same_bits(x, y):
+            if not world.same_values(x, y):
                 return f"entry {k!r} differs bitwise"
         elif x.shape != y.shape or not np.array_equal(x, y):
             return f"entry {k!r} differs"
